@@ -143,6 +143,12 @@ def findGroup : List Grp → Nat → Nat
 
 def specLookup (b : Bytes) (c : Nat) : Nat := findGroup (specGroups b) c
 
+/-- "uint32 length: Byte length of this subtable (including the header)" — a reader that walks the
+subtable by its length field sees only the groups that fit into `length` bytes. -/
+def specGroupsLen (b : Bytes) : List Grp := (specGroups b).take ((u32At b 4 - 16) / 12)
+
+def specLookupLen (b : Bytes) (c : Nat) : Nat := findGroup (specGroupsLen b) c
+
 /-- "Groups must be sorted by increasing startCharCode … a group's endCharCode must be less than
 the startCharCode of the following group": every group starts at or after `lo`, is non-empty, and
 the next one starts after its end. -/
